@@ -80,4 +80,42 @@ def run(ctx):
         hs = b.calls(r"::hash::hash$")
         ok = bool(hs) and all(any(re.search(r"get_slice_with_valid_bounds|get_input_slice|get_offset|::get_slice", x) or "TransactionDecoder" in x for x in origin_names(b, t["args"][0], deep=True)) for _, t in hs)
         ctx.ob(f"raw-hash-covers-consumed-bytes|{nm.split(' as ')[0].split('::')[-1]}", ok, "hash input originates from the decoder's consumed slice", b.loc())
+    ctx.rule("T1/T2 canonical-collection rule in the preparation code: no prepare impl builds a set/map by `collect`/`from_iter`/`extend` (which drop "
+             "repeated elements silently while the summary hash still covers them); the children set of an intent is filled by IndexSet::insert "
+             "whose `already present` arm is doomed (DuplicateKey), and every decoded child passes that test")
+    SETS = r"IndexSet|IndexMap|BTreeSet|BTreeMap|HashSet|HashMap"
+    alive = 0
+    offenders = []
+    for name, f in sorted(F.fns.items()):
+        for c in f.calls:
+            if re.search(r"::collect$|::from_iter$|::extend$", c[0]) and re.search(SETS, c[5] if len(c) > 5 else ""):
+                alive += 1
+    # in scope the untruncated generic arguments of the call are read from the full body
+    for name, f in sorted(F.fns.items()):
+        if f.mod.startswith("radix_transactions::model") and re.search(r"::prepare(_from_value(_body)?|_from_transaction_enum|_partial)?$", f.root):
+            for bb, t in ctx.body(name).calls(r"::collect$|::from_iter$|::extend$"):
+                if re.search(SETS, t.get("ga") or ""):
+                    offenders.append((name, t["f"].rsplit("::", 1)[1], f.loc()))
+    ctx.floor("canonical-collections|detector-alive (set/map collects anywhere in the fact db)", alive, 20)
+    ctx.ob("canonical-collections|no-dedup-collect-in-prepare", not offenders,
+           "no prepare impl collects into a set/map" if not offenders else f"prepare code builds a set/map by a silently de-duplicating call: {[(n.split('::')[-3:], k) for n, k, _ in offenders][:3]}",
+           offenders[0][2] if offenders else "")
+    cn = [x for x in F.fns if re.search(r"PreparedChildSubintentSpecifiersV2 as .*TransactionPreparableFromValueBody>::prepare_from_value_body$", x)]
+    ctx.ob("children|anchor", len(cn) == 1, f"children prepare impl: {len(cn)}")
+    for x in cn[:1]:
+        b = ctx.body(x)
+        gs = [(bb, tru, fal) for bb, tru, fal, si in b.call_bool_guards(r"IndexSet(<[^>]*>)?::insert$") if fal is not None and doomed(b, fal)]
+        ctx.ob("children|duplicate-insert-rejected", len(gs) >= 1, f"{len(gs)} IndexSet::insert test(s) whose `already present` arm cannot reach Ok", b.loc())
+        loops = []
+        for bb, ed, ow, si in b.enum_guards(r"core::option::Option$", lambda a: a.kind == "call" and a.what.endswith("Iterator>::next")):
+            nx = [a for a in si["atoms"] if a.kind == "call" and a.what.endswith("Iterator>::next")]
+            if nx and "Some" in ed:
+                loops.append((nx[0].bb, ed["Some"]))
+        pe = [(bb, tru) for bb, tru, fal in gs]
+        okl = bool(loops) and bool(pe)
+        for head, some in loops:
+            region = b.reach((some,), blocked_edges=pe)
+            if head in region or region & set(b.ok_exits()):
+                okl = False
+        ctx.ob("children|every-decoded-child-passes-the-duplicate-test", okl, "the loop over the decoded child hashes continues only through the `newly inserted` edge", b.loc())
     ctx.assume("collision-freeness and 'changing any field changes the hash' are cryptographic / value-level and not decided")
